@@ -904,6 +904,26 @@ impl Mon {
                 Kind::AccountInit | Kind::AccountInitPda => (true, "new-account"),
                 _ => (false, "unexpected-instruction-changed-an-account"),
             };
+            // writing a debt off without tokens is an administrative act of the risk admin (on a bank
+            // the group admin opted in): a repayment that lowers the debt while nothing reaches the
+            // bank's vault must carry the risk admin's signature, receivership or not
+            if info.kind == Kind::Repay && i == 0 {
+                if let Some((bk, Some(_), Some(_))) = info.banks.first().map(|(k, a, b)| (k, a.as_ref(), b.as_ref())) {
+                    if let Some(bi) = w.bank_by_key(bk) {
+                        let lv = w.banks[bi].k.lv;
+                        let lsh = |a: &MarginfiAccount| a.lending_account.balances.iter().find(|b| b.active != 0 && &b.bank_pk == bk).map(|b| wbits(&b.liability_shares)).unwrap_or(0);
+                        let (pl, ql) = (lsh(p), lsh(q));
+                        if let (Some(v0), Some(v1)) = (v.pre(&lv).and_then(token_amount), v.post(&lv).and_then(token_amount)) {
+                            if ql < pl && bits_to_rat(pl - ql) >= one() && v1 <= v0 {
+                                self.r.count("C08.debts_lowered_without_tokens");
+                                if !risk_signed {
+                                    self.r.violate("C08", "C08/Repay/debt-written-off-without-tokens-and-without-the-risk-admin", format!("account {}: liability shares {} -> {} in bank {}, vault {} -> {}, signers {:?}", ak, pl, ql, bk, v0, v1, info.signers));
+                                }
+                            }
+                        }
+                    }
+                }
+            }
             self.r.count(&format!("C08.attributed/{}", rule));
             self.r.distinct(&("attr", info.kind.name(), rule, frozen, in_rcv));
             if !ok {
